@@ -47,6 +47,16 @@ class _T(ast.NodeTransformer):
                 node.module = REWRITE[top] + node.module[len(top):]
         return node
 
+    def visit_Call(self, node):
+        self.generic_visit(node)
+        f = node.func
+        if isinstance(f, ast.Attribute) and f.attr == "join" and isinstance(f.value, ast.Constant) and isinstance(f.value.value, str) and len(node.args) == 1:
+            # "<sep>".join(parts): a method of a concrete str cannot see symbolic parts
+            return ast.copy_location(
+                ast.Call(func=ast.Attribute(value=ast.Name(id="__symx_rt__", ctx=ast.Load()), attr="join", ctx=ast.Load()),
+                         args=[f.value, node.args[0]], keywords=[]), node)
+        return node
+
     def visit_BinOp(self, node):
         self.generic_visit(node)
         if isinstance(node.op, ast.Div):
